@@ -521,8 +521,8 @@ def s_sql_closed(rep, W, rule="S-SQL"):
             stray.append((b.deff, norm[:60]))
     rep.ob(rule, ("sql-constants", "all-executed-statements-known"), not stray,
            "SQL-looking string constants that are not the text of a modelled execution site: %s" % (stray or "none"))
-    rep.floor(rule, "SQL execution sites", len(ss), 11)
-    rep.floor(rule, "SQL statements", sum(len(s.stmts) for s in ss), 14)
+    rep.floor(rule, "SQL execution sites", len(ss), 8)
+    rep.floor(rule, "SQL statements", sum(len(s.stmts) for s in ss), 10)
     return ss, inst
 
 
@@ -644,7 +644,7 @@ def s_txn2(rep, W, rule="S-TXN2"):
             rep.ob(rule, (short_fn(b), "via-guard", "%s.%s#%d" % (o.field, o.method, [x.bb for x in ops if x.field == o.field and x.method == o.method].index(o.bb))),
                    m(("field", self_field("guard"), ANY), recv) is not None,
                    "map access on %s; must go through self.guard" % P.show(recv), where(b, o.bb), nontrivial=False)
-    rep.floor(rule, "in-memory map accesses", nacc, 13)
+    rep.floor(rule, "in-memory map accesses", nacc, 10)
     statics = [s for s in W.prog.statics]
     rep.ob(rule, ("workspace", "no-statics"), not statics, "static items in the workspace: %s" % ([s["def"] for s in statics] or "none"))
 
@@ -666,7 +666,7 @@ def s_appendonly(rep, W, rule="S-APPENDONLY"):
         okv = v in ("SELECT", "CREATE TABLE", "CREATE INDEX") or (v == "INSERT" and st["conflict"] is None)
         rep.ob(rule, ("sql", short_fn(i.owner), v + (" OR " + st["conflict"] if st["conflict"] else "")), okv,
                "statement on table versions: %s -- only SELECT and plain INSERT may touch version records" % st["text"][:90], i.where())
-    rep.floor(rule, "statements on table versions", n, 5)
+    rep.floor(rule, "statements on table versions", n, 4)
     tables, _ = SM.schema(ss)
     vid = tables.get("versions", {}).get("version_id")
     rep.ob(rule, ("sql", "versions.version_id", "primary-key"), bool(vid) and vid["pk"],
@@ -741,7 +741,7 @@ def s_scope(rep, W, rule="S-SCOPE"):
             okw = bool(ks) and m(cid, i.param(ks[0][1]) or ("unknown",)) is not None
             rep.ob(rule, ("sql", short_fn(i.owner), v + ":" + st["table"]), okw,
                    "INSERT into %s writes column client_id from self.client_id: %s" % (st["table"], "yes" if okw else "NO"), i.where())
-    rep.floor(rule, "scoped DML statements", ndml, 8)
+    rep.floor(rule, "scoped DML statements", ndml, 6)
     nacc = 0
     for mth in WD.ALL_METHODS:
         b = W.impl_method("inmemory", mth)
@@ -759,7 +759,7 @@ def s_scope(rep, W, rule="S-SCOPE"):
                 okk = m(pat.tup(self_field("client_id"), ANY), o.key) is not None
             rep.ob(rule, ("mem", short_fn(b), "%s#%d" % (k, counts[k] - 1)), okk,
                    "key of %s.%s is %s; its client component must be self.client_id" % (o.field, o.method, P.show(o.key)), where(b, o.bb))
-    rep.floor(rule, "in-memory keyed map accesses", nacc, 13)
+    rep.floor(rule, "in-memory keyed map accesses", nacc, 10)
     # the client_id field of a transaction object is only set at construction
     for ty, backend in (("Txn", "sqlite"), ("InnerTxn", "inmemory")):
         writers = []
@@ -1455,7 +1455,7 @@ def c18_ops(rep, W, rule="C18.OPS"):
             ndec += 1
             rep.ob(rule, (short_fn(sn), "decline-write-free#%d" % ndec), True, "decline exit with no write-class/commit call on any path to it",
                    where(sn, line=exit_line(sn, site)))
-    rep.floor(rule, "add_snapshot decline exits", ndec, 4)
+    rep.floor(rule, "add_snapshot decline exits", ndec, 2)
     rep.floor(rule, "add_snapshot accept exits", nacc, 1)
     # exactly one exit follows the write
     rep.ob(rule, (short_fn(sn), "single-accept-exit"), nacc == 1, "%d exit(s) follow set_snapshot" % nacc, where(sn))
@@ -1579,7 +1579,22 @@ def c10(rep, W, rule="C10"):
     cdefs = pv.phi_alternatives(cnt_l)
     rec = ("ok", ("ok", pv.def_term((gv_bb, "T"))))
     init_v = [t for sdef, t in vdefs if t == ("field", client, "latest_version_id")]
-    step_v = [(sdef, t) for sdef, t in vdefs if t == ("field", rec, "parent_version_id")]
+
+    def _is_step(sdef, t):
+        if t == ("field", rec, "parent_version_id"):
+            return True
+        # the record may have been bound to a local first (`let parent = ..; match parent`): resolve per valuation
+        if sdef[0] == "param" or not P.phi_locals(t):
+            return False
+        vals_ = g.vals_at(sdef)
+
+        def _same_record(r):
+            # field(ok(ok(get_version@<the one lookup site>(..))), parent_version_id); the call's own arguments may have
+            # been resolved further (the walked id), so compare by call site
+            return (r[0] == "field" and r[2] == "parent_version_id" and r[1][0] == "ok" and r[1][1][0] == "ok"
+                    and r[1][1][1][0] == "call" and r[1][1][1][1] == WD.tm("get_version") and r[1][1][1][2] == gv_bb)
+        return bool(vals_) and all(_same_record(g.resolve_phis(t, v_)) for v_ in vals_)
+    step_v = [(sdef, t) for sdef, t in vdefs if _is_step(sdef, t)]
     rep.ob(rule, (fn, "ITER", "vid-defs"), len(vdefs) == 2 and len(init_v) == 1 and len(step_v) == 1,
            "walk variable definitions: %s; must be {client.latest_version_id, parent link of the version just read}" % [P.show(t) for _, t in vdefs], where(body))
     init_c = [t for sdef, t in cdefs if t[0] == "const" and isinstance(t[2], int)]
@@ -1648,7 +1663,7 @@ def c10(rep, W, rule="C10"):
         rep.ob(rule, (fn, "D", "decline-condition#%d" % nd), all_vals(g, site, decl),
                "a decline exit is taken only under: already the snapshot / newer snapshot in window / window exhausted / chain start reached / version missing; offending: %s"
                % failing_vals(g, site, decl)[:1], where(body, line=exit_line(body, site)))
-    rep.floor(rule, "decline exits", nd, 4, where(body))
+    rep.floor(rule, "decline exits", nd, 2, where(body))
 
 
 # =========================================================================== C11
@@ -2037,7 +2052,7 @@ def c05_err(rep, W, rule="C05.ERR"):
             rep.ob("C05.PANIC", (short_fn(b), "%s#%d" % (k, pc[k] - 1)), bool(row),
                    "%s in %s: %s" % (d.split("::", 2)[-1], b.deff, row[0] if row else "NOT in the panic-site table (a failing step would crash the worker instead of producing an error response)"),
                    where(b, bb), nontrivial=False)
-    rep.floor(rule, "Result-valued call sites", n, 60)
+    rep.floor(rule, "Result-valued call sites", n, 45)
     return n
 
 
@@ -2150,4 +2165,4 @@ def s_failstop_all(rep, W, rule="S-FAILSTOP"):
     bodies += [W.body(WD.SQLITE + "::SqliteStorage::new"), W.body(WD.SQLITE + "::SqliteStorage::new_connection"), W.body(WD.SQLITE + "::Txn::get_version_impl")]
     for b in bodies:
         n += s_failstop(rep, W, b, rule)
-    rep.floor(rule, "storage steps with a visible failure edge", n, 20)
+    rep.floor(rule, "storage steps with a visible failure edge", n, 15)
